@@ -8,6 +8,8 @@ var ByteSymbols = []string{
 	"\u0080", "\u0081", "\u00ff", "\u07ff", "\u0800", "\uffff", "\U00010000", "\U0010ffff", "\x80", "\xc0", "\xff", "\xe2\x82",
 	// runes >= U+0100 whose low byte is an ASCII letter / digit / underscore (table lookups by truncated rune)
 	"\u3042", "\u0141", "\u4e30", "\u015f",
+	// characters that Unicode (but not JMESPath) counts as white space
+	"\v", "\f", "\u0085", "\u00a0", "\u2028", "\u3000",
 }
 
 // PumpUnits are the u / w parts of the pumping family u^k v w^k.
